@@ -11,7 +11,7 @@
 import MptModel.Lemmas.Stream
 import MptModel.Lemmas.CodedQueueHist
 import MptModel.Lemmas.CodedQueueDec
-import MptModel.Lemmas.CodedQueueRun
+import MptModel.Lemmas.CodedQueueDrain
 namespace Mpt.C02
 open Mpt Mpt.Cobs Mpt.Stream Mpt.Codec Mpt.CQ
 
@@ -300,18 +300,53 @@ theorem queue_refines (v : Variant) :
   ⟨fun q vis fin ms src h => queue_refines_push v q vis fin ms src h,
    fun frames ms hcar q hc fed future hfut k h hph => queue_refines_recv v frames ms hcar q hc fed future hfut k h hph⟩
 
-/-! ### Stated, not proved for the model (liveness; tied to the code by the correspondence run only) -/
+/-! ### liveness of the model -/
 
-/-- no stall at the model level: once the bytes accepted by the decode queue contain `k` complete frames,
-    repeated receiving — with the storage enlarged whenever `MissingBuffer` is returned — delivers `k`
-    messages.  (Safety — what is delivered is right — is `receiver_history`; the spec-level statement is
-    `no_stall`.  The generators check this clause on every `dq drain`.) -/
-def no_stall_model_statement : Prop :=
-  ∀ (v : Variant) (frames : List (List Byte)) (ms : List Msg), Carries v frames ms →
-  ∀ (store : List Byte) (off base : Nat), off ≤ store.length → ∀ (ops : List DOp) (future : List Byte),
+/-- **No stall (model)**: from every reachable receiver state inside a valid stream — any history of arrivals
+    in arbitrary pieces, receives, shifts and growths on a queue of any capacity, wrap offset and storage
+    alignment — a draining reader that gives the queue `B` bytes of storage more and calls `mpt_queue_recv`
+    (`drainStep`) obtains one message per round: after `c − got` rounds, where `c` is the number of complete
+    frames among the bytes accepted so far, exactly the first `c` messages have been delivered.  `B` = the
+    number of bytes accepted so far plus two is enough for any work area the decoder may ask for
+    (`MissingBuffer`, zero pair elimination).  In particular no call answers "need more data" while a complete
+    frame is in the queue: the three stalls (cropped work area, re-alignment of an open block, recovery that
+    did not enlarge the work area) are excluded for every reachable state. -/
+theorem no_stall_model (v : Variant) (frames : List (List Byte)) (ms : List Msg) (hcar : Carries v frames ms)
+    (store : List Byte) (off base : Nat) (hoff : off ≤ store.length) (ops : List DOp) (future : List Byte) :
     let s := ops.foldl rstep { q := { ring := { store := store, len := 0, off := off }, codec := some v, base := base } }
     s.fed ++ future = frames.flatten →
-    ∃ n, let s' := ((List.replicate n [DOp.recv, DOp.grow (s.q.ring.max + 64 * (n + 1))]).flatten).foldl rstep s
-      s'.got = ms.take (frameCount s.fed)
+    s.got.length ≤ frameCount s.fed ∧
+    (drainN (s.fed.length + 2) (frameCount s.fed - s.got.length) s).got = ms.take (frameCount s.fed) := by
+  intro s hfut
+  have hfresh : Fresh ({} : DecState) := ⟨rfl, fun _ => rfl, fun m hm => by cases hm⟩
+  have h0 : RInvL v frames ms { q := { ring := { store := store, len := 0, off := off }, codec := some v, base := base } } :=
+    ⟨⟨DInv.fresh store off hoff (some v) base, rfl, 0, by simp, by omega, Phase.idle hfresh (by simp) (by simp [Ring.content])⟩,
+     slackOk_ctx0 v _ rfl⟩
+  have hI := rrunL_inv v frames ms hcar ops _ future hfut h0
+  -- the delivered messages belong to complete frames
+  have hle : s.got.length ≤ frameCount s.fed := by
+    obtain ⟨k, hgot, hk, hph⟩ := hI.inv.ex
+    have hgot' : s.got = ms.take k := hgot
+    have hkl : s.got.length = k := by
+      rw [hgot', List.length_take]; omega
+    have hP : (frames.take k).flatten.count 0 = k := by
+      rw [frames_count _ (fun f hf => carries_isFrame hcar f (List.mem_of_mem_take hf)), List.length_take,
+        carries_length hcar]; omega
+    rw [hkl]
+    unfold frameCount
+    cases hph with
+    | idle _ _ hfed => rw [← hfed, List.count_append, hP]; omega
+    | busy c0 Uc _ _ _ hfed => rw [← hfed, List.count_append, hP]; omega
+  refine ⟨hle, ?_⟩
+  obtain ⟨a, _⟩ := drain_all v frames ms hcar (s.fed.length + 2) (frameCount s.fed - s.got.length) s future hfut hI
+    (Nat.le_refl _) (by omega)
+  rw [a]; congr 1; omega
+
+-- non-vacuity: the zero pair frame `e1 07 02 09 00` arrives byte by byte in a full ring of 8 bytes whose free
+-- space was used up; one draining round (storage grown, `MissingBuffer` recovery inside) delivers
+example :
+    let s := ([.feed [0xe1], .recv, .feed [7], .recv, .feed [2, 9, 0], .shift] : List DOp).foldl rstep
+      { q := { ring := { store := List.replicate 5 0, len := 0, off := 3 }, codec := some .zpe, base := 3 } }
+    s.fed = [0xe1, 7, 2, 9, 0] ∧ s.got = [] ∧ frameCount s.fed = 1 := by decide
 
 end Mpt.C02
